@@ -483,6 +483,11 @@ func c20Custom(c *run.Ctx) {
 			if !cacheHeadersOK(rec.Header()) {
 				c.Violate(run.Violation{Kind: "cache-headers-missing", Key: "cache-headers-missing custom response mode error=true", Detail: fmt.Sprintf("%s headers=%v", en, rec.Header())})
 			}
+			// the handler renders the error it is handed the way the repository's own example does (ErrorToRFC6749Error(err).ToValues()):
+			// with exposure off the debug text must not be in what it gets to render
+			if !expose && strings.Contains(rec.Body.String(), debugCanary) {
+				c.Violate(run.Violation{Kind: "debug-leaked", Key: "debug-leaked custom response mode", Detail: "debug text reached the page of a custom response mode although exposure is off: " + rec.Body.String()})
+			}
 		}
 		// ---- failing custom key fetcher: its error text is internal detail
 		obj := world.SignJWT(keys.ClientRSA[0], "RS256", map[string]interface{}{"kid": "k0"}, map[string]interface{}{"iss": "c20j", "aud": world.Issuer, "client_id": "c20j", "response_type": "code",
